@@ -236,6 +236,33 @@ APPEND = {
             "per-attempt C15 clauses, six what-if configurations (one per-attempt datum kept in a handler cell) must each fail, and every complete 2-attempt schedule "
             "(1 694 quick / 5 792 thorough, plus ~46k sampled 3-attempt schedules) is pinned with gates on the real handler and judged per attempt by OAuthFlowConcMon."),
 }
+SSE_TXT = (" The legacy HTTP+SSE transport is covered by a satellite (SSESat.tla: a composed model of one or two real session pairs over SSEHandler / "
+           "SSEServerTransport / SSEClientTransport and the jsonrpc2 connections on both ends, with overlapping request ids, nested calls, notifications both ways, "
+           "cuts, failed POSTs, Close from either side and network holds; 7 exhaustive configurations up to 820k states, termination under weak fairness, four "
+           "sensitivity leads, ten witnesses): transition covers of its seam graphs, TLC-simulated histories, 33 corner scripts and seeded random scripts run on a real "
+           "mcp.Client + SSEClientTransport against a real SSEHandler + mcp.Server through a scripted RoundTripper under synctest, judged by the %s.Sse* clauses of SSESatMon.")
+for _k in ("C01", "C02", "C03", "C05"):
+    APPEND[_k] = APPEND.get(_k, "") + SSE_TXT % _k
+APPEND["C05"] += (" The streamable-HTTP shutdown machinery is covered by a second satellite (HttpClose.tla: one real client session and one real server session over "
+                  "StreamableHTTPHandler as a composed machine - session table, per-request exchanges and handlers, standalone GET / SSE goroutine with back-off, nested "
+                  "calls, DELETE fates, idle timer, stateless ephemeral sessions; exhaustive safety and liveness on small constants, a recorded lead and two design "
+                  "switches): transition cover of the seam graphs, -simulate histories (each compared step by step with the model's projected state), 48 hand-written races "
+                  "and seeded random scripts on a real Client/StreamableClientTransport against a real Server/StreamableHTTPHandler with the two-stage drain and a goroutine "
+                  "census, judged by the seven C05.Http* clauses of HttpCloseMon.")
+APPEND["C09"] = (" The two budgets of MaxRetries (attempts per reconnection; resumptions in a row without a new event id) are explicit and crossed: after a resumable first "
+                 "cut the environment answers each attempt refused / transient status / 200 empty / 200 with a retry-only event (bare, `event: close`+retry as the SDK server "
+                 "writes it, with the resumed id) / 200 with the rest - every sequence for MaxRetries 1-2, the grid 0..MaxRetries+1 fruitless resumptions x 1..MaxRetries "
+                 "failed attempts at every position for MaxRetries 2, 3 and (thorough) the default 5 with the option unset, against a server that is stuck once the script "
+                 "ends; WithinBudgetsNeverFails and BoundedRetries judge them (only a new id is progress); budget-grid coverage is asserted (a missing cell is a machinery error).")
+APPEND["C12"] = (" Client-side histories have the tools/list listing split into request / server answer / delivery per page, list_changed delivered at any point, and the "
+                 "cache generation counter transcribed (HeaderMirrorHist.tla): every history <= 6 (thorough <= 8) steps is model-checked (a cold-cache what-if without "
+                 "generation bump must fail), the racy informed ones are replayed on the real client and the real stateless server with gates in the RoundTripper; Informed = "
+                 "last held answer current, or notified and re-listed afterwards.")
+APPEND["C19"] = (" CodecSSE.tla is a state machine of a byte stream that breaks under the reader: SSE events (8 shapes; LF, CRLF and CR line ends; comments) and "
+                 "newline-delimited frames; a channel cuts the stream after every byte class and ends it with io.EOF, io.ErrUnexpectedEOF or another read error. The "
+                 "specification's reader satisfies ScDelivered / ScNoGaps on every state and is chunk-independent; the code-shaped reader breaks them only in its two lead "
+                 "classes; a witness reader must break them. Every (stream, cut, end) is run at every byte offset with three chunkings of the Reads on the real scanEvents, "
+                 "streamableClientConn.processStream and ioConn.Read, and is judged by CodecMon.")
 REPLACE = {
     "C14": ("BearerDefs.tla holds the value classes, the code-shaped Expected and the declarative property Holds (iff admission, status by cause, challenge content, "
             "same token info); Bearer.tla holds the case space of 92 354 cases: the core product of 81 600 (header shapes x verifier outcomes incl. error-with-info x "
